@@ -268,11 +268,6 @@ Fixpoint after (p q : op -> bool) (h : list op) : bool :=
   match h with [] => false | o :: h' => (p o && existsb q h') || after p q h' end.
 Definition is_i2l o := match o with ImportToLocal _ _ => true | _ => false end.
 Definition is_del_f o := match o with Delete SF _ => true | _ => false end.
-(* D01: the id maps are re-applied by a second encode: any non-identity map *)
-Definition known_D01 (c : rcase) : bool :=
-  existsb (fun x => existsb (fun kv => negb (N.eqb (fst kv) (snd kv))) (snd (ispace c x))) [SF; SG; SM]
-  || existsb (fun x => s_recalc (get_sp (final_model c) x)) [SF; SG; SM].
-
 Definition K (n : N) (p : rcase -> bool) : N * (rcase -> bool) := (n, p).
 Definition cls (c : rcase) (l : list (N * (rcase -> bool))) : list N :=
   flat_map (fun kp : N * (rcase -> bool) => if snd kp c then [fst kp] else []) l.
@@ -301,10 +296,7 @@ Definition is_l2i o := match o with LocalToImport _ _ => true | _ => false end.
 Definition verdict11 (c : rcase) : Util.verdict :=
   (agree c, in_domain c && hist_has c is_l2i, binds_ok SF c && live_exact c SF,
    cls c []).
-Definition verdict05 (c : rcase) : Util.verdict :=
-  (agree c, negb (o_api_panic c) && encoded c, o_same2 c, cls c [K 1 known_D01]).
-
-Definition report_C05 := run_report verdict05.
+(* C05 (second encode): Check/CheckReidx2.v *)
 Definition report_C06 := run_report verdict06.
 Definition report_C07 := run_report verdict07.
 Definition report_C08 := run_report verdict08.
